@@ -1,5 +1,5 @@
 #!/bin/bash
-# tools_regress.sh [seeded|benign|all] — regression of the machinery itself:
+# tools_regress.sh [seeded|audit|benign|all] — regression of the machinery itself:
 #   seeded: every kept breaking change (seeded/<tag>/patch.diff) applied to /repo, ./check <its property> quick must print a VIOLATION line
 #   benign: every kept behaviour-preserving refactoring (benign/<tag>/patch.diff) applied, every quick check must stay quiet
 # /repo is reverted after each; evidence and generated tables are restored at the end.  Output: one line per tag.
@@ -14,6 +14,18 @@ if [ "$MODE" = seeded ] || [ "$MODE" = all ]; then
     git -C /repo checkout -- . && git -C /repo clean -fdq src
     nv=$(echo "$out" | grep -c "^VIOLATION"); weak=$(echo "$out" | grep -c "no-failing-input-found")
     echo "SEEDED $tag $pid: $([ $nv -gt 0 ] && ([ $weak -gt 0 ] && echo "caught (no failing input)" || echo caught) || echo MISSED) :: $(echo "$out" | grep quick: | sed 's/.*quick: //')"
+  done
+fi
+if [ "$MODE" = audit ] || [ "$MODE" = all ]; then
+  # the generator auditors' own breaking changes (audit/<ID>/own*.diff): each must be caught by the check of <ID>
+  for f in audit/*/own*.diff; do
+    [ -f $f ] || continue
+    pid=$(basename $(dirname $f)); tag=$pid-$(basename $f .diff)
+    (cd /repo && git apply /verif/$f) 2>/dev/null || { echo "AUDIT $tag: patch no longer applies"; continue; }
+    out=$(./check $pid quick 2>&1 | grep -E "^VIOLATION|quick:")
+    git -C /repo checkout -- . && git -C /repo clean -fdq src
+    nv=$(echo "$out" | grep -c "^VIOLATION"); weak=$(echo "$out" | grep -c "no-failing-input-found")
+    echo "AUDIT $tag: $([ $nv -gt 0 ] && ([ $weak -gt 0 ] && echo "caught (no failing input)" || echo caught) || echo MISSED) :: $(echo "$out" | grep quick: | sed 's/.*quick: //')"
   done
 fi
 if [ "$MODE" = benign ] || [ "$MODE" = all ]; then
